@@ -67,10 +67,10 @@ class Gen:
         if k == "dense":
             return ["dense", dt, r, c, self.mat(dt, r, c)]
         if k == "sparse":
-            n = self.rng.randint(0, max(1, r * c))
-            ents = [[self.rng.randrange(r), self.rng.randrange(c), self.z(dt)] for _ in range(n)] if r * c > 0 else []
-            if not ents and r * c > 0:
-                ents = [[0, 0, self.z(dt)]]
+            coords = [(i, j) for i in range(r) for j in range(c)]
+            self.rng.shuffle(coords)
+            coords = coords[:self.rng.randint(1, max(1, len(coords)))]
+            ents = [[i, j, self.z(dt)] for (i, j) in coords]
             return ["sparse", dt, r, c, ents]
         if k == "tri":
             lower = self.rng.random() < 0.5
